@@ -5,8 +5,8 @@
    outcome of every SendDataResponse call).  cfg_current is the code as it is now (after the two
    repairs recorded in known_findings / integration/net.json), cfg_pinned the tree as first read. *)
 From Coq Require Import List NArith Arith Bool Sorted.
-From Stef Require Import Responder ResponderFacts.
-From Stef Require Import Bits Codecs Schema Wire Apply Frame FrameFacts Reader ReaderFacts.
+From Stef Require Import Responder ResponderFacts LockstepFacts.
+From Stef Require Import Bits Codecs Schema Wire Apply Frame Reader.
 Import ListNotations.
 Open Scope N_scope.
 
@@ -14,7 +14,7 @@ Open Scope N_scope.
 (* the generated reader counts one per record (the writer side is the same counter, C01) *)
 Theorem C16_reader_count_step : forall sizes fuel k tef r r' w, rd_left r <> 0 ->
   reader_read sizes fuel (S k) tef r = RdRecord r' w -> rd_count r' = rd_count r + 1.
-Proof. intros sizes fuel k tef r r' w H1 H2. exact (proj2 (proj2 (read_uses_loaded_frame sizes fuel k tef r r' w H1 H2))). Qed.
+Proof. exact reader_count_step. Qed.
 Print Assumptions C16_reader_count_step.
 
 (* the receiver's RecordCount is the number of records decoded; the batches handed to the consumer
